@@ -372,6 +372,20 @@ func cmdCheck(args []string) int {
 			if o.Kind == "attach" || o.Kind == "engine" || o.Kind == "contract" {
 				f.Backend = "attach"
 			}
+			if why, drift := e.drifted[o.Func]; drift {
+				// the contract was written for another shape of this function (a loop it has a clause for is
+				// gone): what can still be proved is proved, what cannot is undecided, unless a solver refutes it
+				refuted := false
+				for _, q := range o.Queries {
+					if q.Res.Status == "sat" && q.Expect != "sat" {
+						refuted = true
+					}
+				}
+				if !refuted {
+					f.Backend = "attach"
+					f.Detail = why + "; not discharged for the function as it is now: " + f.Detail
+				}
+			}
 			for _, q := range o.Queries {
 				if q.Res.Status != "unsat" && q.Expect != "sat" {
 					f.SolverOut = q.Res.Solver + ": " + q.Res.Status + " " + firstLine(q.Res.Output)
